@@ -21,7 +21,11 @@ from .. import fixtures, pool, tlc, tracecheck
 from ..common import seed
 
 DMS = [10.0, 12.0, 20.0, 5.0]           # index 1 = folding DM
-PERIODS = [0.01, 0.010001, 0.009998, 0.0100005]
+# the last two differ from the folding period by a few 1e-6 only: over a long observation that is still many bins
+# period targets as P_fold + k * 1e-9 s; the last two differ from the folding period by 5e-7 / 1e-6 relative only
+PK = [0, 1000, -2000, 5, -10]
+PERIODS = [0.01 + k * 1e-9 for k in PK]
+TOBS = 1.0e4
 
 
 def make_cube(hdr, shape):
@@ -56,7 +60,7 @@ def job(spec):
     from sigpyproc.readers import FilReader
     d = pool.worker_scratch()
     p = d / f"c17_{spec['id']}.fil"
-    fixtures.write_fil(p, np.zeros(64 * 4, dtype=np.int64), 64, 8, fch1=400.0, foff=-1.0, tsamp=25.0)   # tobs = 100 s
+    fixtures.write_fil(p, np.zeros(64 * 4, dtype=np.int64), 64, 8, fch1=400.0, foff=-1.0, tsamp=TOBS / 4)   # tobs = 1e4 s
     hdr = FilReader(str(p)).header
     traces = []
     for shape in spec["shapes"]:
@@ -73,7 +77,8 @@ def job(spec):
             if pv != PERIODS[0]:
                 c.update_period(pv)
             sp.append([rotations(c, o)[i][0] for i in range(nints)])
-        h = {"nints": nints, "nbands": nbands, "nbins": nbins, "sdm": sdm, "sp": sp}
+        # dbins = (k*1e-9 / P) * tobs * nbins / P = k * nbins / 10   for P = 0.01 s, tobs = 1e4 s  (exact)
+        h = {"nints": nints, "nbands": nbands, "nbins": nbins, "sdm": sdm, "sp": sp, "dbn": [k * nbins for k in PK], "dbd": 10}
         for hist in spec["hists"]:
             cube, orig = make_cube(hdr, shape)
             ev = []
@@ -101,13 +106,13 @@ def run(v) -> None:
     v.rule = "histories distinct by (cube shape, sequence of (op, target)); non-trivial = length >= 2"
     v.assumptions += ["shift tables are measured once per shape on fresh cubes (the property's oracle)",
                       "profiles are distinct non-symmetric ramps: the applied rotation is read exactly from the data",
-                      "targets: 4 DMs (10 folding, 12, 20, 5) x 4 periods around 10 ms; tobs = 100 s; band 400 MHz, 64 x -1 MHz"]
+                      "targets: 4 DMs (10 folding, 12, 20, 5) x 5 periods P+k*1e-9 s (k = 0, 1000, -2000, 5, -10); tobs = 1e4 s; band 400 MHz, 64 x -1 MHz", "the period drift is computed by TLC from the documented relation; the DM shift table is measured on fresh cubes (the law is C09)"]
     v.add_tlc(tlc.must_pass(tlc.run("FoldedCube", "MC_FoldedCube_intended.cfg", workers=4), "FoldedCube intended"), "MC_FoldedCube")
     tlc.must_fail(tlc.run("FoldedCube", "MC_FoldedCube_pinned.cfg", workers=4), "pinned registers")
-    ops = [("dm", t) for t in range(3)] + [("period", t) for t in range(3)]
+    ops = [("dm", t) for t in range(3)] + [("period", t) for t in (0, 1, 3)]
     depth = 3 if quick else 4
     hists = [list(h) for k in range(1, depth + 1) for h in itertools.product(ops, repeat=k)]
-    ops4 = [("dm", t) for t in range(4)] + [("period", t) for t in range(4)]
+    ops4 = [("dm", t) for t in range(4)] + [("period", t) for t in range(5)]
     for _ in range(60 if quick else 600):
         hists.append([rng.choice(ops4) for _ in range(rng.randrange(4, 13))])
     shapes = [(3, 4, 16), (2, 2, 8)] if quick else [(3, 4, 16), (2, 2, 8), (4, 8, 32), (1, 4, 16), (5, 1, 16)]
